@@ -2,7 +2,7 @@
 From Coq Require Import ZArith Bool List Lia.
 From Coq Require Import Strings.String Strings.Byte Floats.SpecFloat.
 From JaqV Require Import Base.F64 Base.Bytes Base.Stream Val.Num Val.Val Val.Utf8 Val.Err Val.Arith Val.Index
-  Core.Natives Json.Write.
+  Core.Natives Json.Write Json.Read.
 Import ListNotations.
 Local Open Scope Z_scope.
 
@@ -226,6 +226,12 @@ Definition std_run (fuel : nat) (name : bytes) (args : list narg) (v : val) : op
   | [] =>
       if name_is name "length" then Some (of_res_opt (vlength v))
       else if name_is name "tojson" then Some (sone (TStr (to_json v)))
+      else if name_is name "fromjson" then
+        Some (match v with
+              | TStr s => let '(vs, e) := parse_many (S (List.length s)) s in
+                          sapp (of_list vs) (fun _ => match e with None => SNil | Some _ => serr (EOther 4) end)
+              | _ => serr (ETyp v TStrT)
+              end)
       else if name_is name "floor" then Some (of_res (vround RFloor v))
       else if name_is name "round" then Some (of_res (vround RRound v))
       else if name_is name "ceil" then Some (of_res (vround RCeil v))
